@@ -74,6 +74,32 @@ def design(ctx: Ctx):
             raise tlc.MachineryError(f'design counterexample in Estimator.tla ({cfg}): {r.violated}\n{r.counterexample[-2:]}')
 
 
+REPLAYED = {'C04', 'C05', 'C06', 'C07', 'C17', 'C19'}
+
+
+def replay_behaviours(ctx: Ctx, prefixes):
+    """spec -> code: behaviours of Estimator.tla generated by `tlc -simulate` are stepped through real
+    BaseDiscretizer objects; the projected state / output / outcome after every action must be the one
+    of the specification."""
+    from ..core import use_repo, Violation, jhash
+    use_repo()
+    from ..drivers import est_replay
+    num = 150 if ctx.tier == 'quick' else 6000
+    nb, ns, out = est_replay.run(num, 10, ctx.seed + 1)
+    ctx.traces += nb
+    ctx.evaluations += ns
+    ctx.notes['spec_to_code_behaviours'] = nb
+    ctx.notes['spec_to_code_steps'] = ns
+    ctx.nontrivial.update(jhash(['beh', ctx.seed, i]) for i in range(nb))
+    for cfg, i, cl, why, steps in out:
+        if cl.startswith(tuple(prefixes)):
+            ctx.violations.append(Violation(clause=cl, what=f'behaviour {i} of Estimator.tla ({cfg}) {steps[-4:]}: {why}',
+                                            sig={'driver': 'est_replay.replay', 'clause': cl, 'cfg': cfg},
+                                            replay={'driver': 'est_replay.replay', 'args': {'cfg': cfg, 'index': i, 'seed': ctx.seed + 1, 'num': num}}))
+    if nb:
+        ctx.add_sample({'kind': 'spec->code behaviour of Estimator.tla', 'steps': out[0][4] if out else 'all behaviours followed'}, limit=6)
+
+
 def run(ctx: Ctx, extra=None):
     t = TABLE[ctx.pid]
     ctx.rule = t['rule']
@@ -83,10 +109,25 @@ def run(ctx: Ctx, extra=None):
     prefixes = list(t['prefixes']) + ALSO.get(ctx.pid, [])
     for kind, nq, nt in t['kinds']:
         ec.run_kind(ctx, kind, prefixes, nq, nt)
+    if ctx.pid in REPLAYED:
+        replay_behaviours(ctx, prefixes)
     if extra:
         extra(ctx)
 
 
 def replay(ctx: Ctx, rep: dict):
     t = TABLE[ctx.pid]
+    if rep.get('driver') == 'est_replay.replay':
+        from ..core import use_repo, Violation
+        use_repo()
+        from ..drivers import est_replay
+        behs = est_replay.simulate(rep['args']['cfg'], rep['args']['num'], 10, rep['args']['seed'])
+        beh = behs[rep['args']['index']]
+        ctx.traces += 1
+        ctx.evaluations += len(beh)
+        for cl, why in est_replay.replay(beh):
+            if cl.startswith(tuple(list(t['prefixes']) + ALSO.get(ctx.pid, []))):
+                ctx.violations.append(Violation(clause=cl, what='replayed behaviour still fails: ' + why,
+                                                sig={'driver': 'est_replay.replay', 'clause': cl, 'cfg': rep['args']['cfg']}, replay=rep))
+        return
     ec.replay_case(ctx, rep, list(t['prefixes']) + ALSO.get(ctx.pid, []))
